@@ -7,6 +7,7 @@
   Timestamps and retention lists: see the `…_partial` notes at the end.
 -/
 import Wsp.Proofs.TextLemmas
+import Wsp.Proofs.Calendar.RoundTrip
 namespace Wsp.C19
 
 /-- every printed unit is a parsed unit with the same multiplier, positive, and not a digit -/
@@ -211,6 +212,28 @@ theorem rejects_too_large (ds : Str) (c : Char) (u : Int) (hu : unitTable.lookup
     subst hl hcc
     rw [hu] at hu'; injection hu' with hu'; subst hu'
     omega
+
+/-! ### timestamps -/
+
+/-- **parse ∘ print = id on all 2^32 timestamps**: the fixed layout `2006-01-02T15:04:05Z`
+    printed from the civil date of `t / 86400` and the time of day `t % 86400` parses back to
+    `t`.  The calendar core (day ↦ (y, m, d) ↦ day, with a valid month and day-of-month, for
+    each of the 49 711 days of the range) is checked by kernel evaluation in
+    `Wsp/Proofs/Calendar/Chunk*.lean`; the rest is decimal arithmetic. -/
+theorem timestamp_roundtrip (t : Nat) (ht : t < 4294967296) :
+    parseTimestamp (timestampString t) = some t := parseTimestamp_timestampString t ht
+
+/-- an accepted timestamp is inside the uint32 range: no wrap-around (repaired) -/
+theorem timestamp_no_wrap (s : Str) (t : Nat) (h : parseTimestamp s = some t) : t ≤ 4294967295 := by
+  unfold parseTimestamp at h
+  split at h
+  · simp at h
+  · rename_i sec _
+    split at h
+    · simp at h
+    · rename_i hr
+      injection h with h
+      omega
 
 /-! ### method names -/
 
